@@ -44,7 +44,8 @@ def generate(seed, tier):
         msgs.append({'kind': 'getpeers', 'a': 1, 'n': 0})
     tail = rng.choice([None, None, 'magic0', 'magic1', 'magic2', 'magic3', 'len_over', 'len_zero', 'bad_payload',
                        'truncated', 'unknown_type', 'trailing_garbage', 'len_over_end', 'len_zero_end', 'magic_end',
-                       'len_magic_alphabet', 'len_magic_alphabet', 'double_magic'])
+                       'len_magic_alphabet', 'len_magic_alphabet', 'double_magic', 'len_near_2_32', 'len_near_2_32',
+                       'len_too_short', 'len_too_short', 'len_too_long_by_little'])
     return {'config': {'tail': tail, 'cuts_seed': rng.getrandbits(32), 'exhaustive_limit': 520}, 'ops': msgs}
 
 
@@ -121,6 +122,21 @@ def build_stream(script):
         ln = [b'A\x00\x00\x00', b'MAJI', b'I\x00\x00\x01', b'JJJJ', b'MA\x00\x00'][n_ % 5]
         frames.append(MAGIC + ln + good)
         frames.append(MAGIC + struct.pack('>I', len(good)) + good)
+    elif tail == 'len_near_2_32':
+        # over-limit lengths with the top bit set (negative if read as a signed number), followed by decodable bytes
+        ln = [0xFFFFFFFF, 0xFFFFFFFE, 0xFFFFFFC0, 0x80000000, 0xFFFFFF00, 0xFFFFFFFF - len(good)][len(frames) % 6]
+        frames.append(MAGIC + struct.pack('>I', ln) + good + good + good)
+        frames.append(MAGIC + struct.pack('>I', len(good)) + good)
+    elif tail == 'len_too_short':
+        # the length field announces fewer bytes than the message needs; the rest follows immediately
+        k_ = 1 + (len(frames) * 7) % (len(good) - 1)
+        frames.append(MAGIC + struct.pack('>I', len(good) - k_) + good)
+        frames.append(MAGIC + struct.pack('>I', len(good)) + good)
+    elif tail == 'len_too_long_by_little':
+        # the length field announces a few bytes more than the message: they belong to this frame, the next magic is off
+        k_ = 1 + len(frames) % 5
+        frames.append(MAGIC + struct.pack('>I', len(good) + k_) + good)
+        frames.append(MAGIC + struct.pack('>I', len(good)) + good)
     elif tail == 'double_magic':
         frames.append(MAGIC + MAGIC + struct.pack('>I', len(good)) + good)
     elif tail == 'len_over_end':
@@ -193,6 +209,15 @@ def execute(script):
             return False
 
     want, refuse_after = ref_frames(stream, decodable)
+
+    def canonical(payload):
+        # what a frame's bytes mean: the decoded (header, message), compared by re-encoding (bytes after the message
+        # inside a frame are not part of the message)
+        f = BytesIO(payload)
+        h_ = M.MessageHeader.stream_deserialize(f)
+        m_ = M.Message.stream_deserialize(f)
+        return h_.serialize() + m_.serialize()
+    want = [canonical(p_) for p_ in want]
     n = len(stream)
     res.sample = {'stream_bytes': n, 'messages': len(want), 'refused_after': refuse_after,
                   'tail': script['config'].get('tail')}
